@@ -140,14 +140,196 @@ def brOkG (strict : Bool) : Bool → Str → Bool
     (c != ']' || !seen || (!strict && rest.head? != some '(' && rest.head? != some '[')) &&
       brOkG strict (seen || c == '[') rest
 
+/-! ### `&` -/
+
+/-- `html.unescape` leaves the `&` before `rest` alone: no character reference (in the Markdown
+    regex's sense) begins there, or it is a named one that is replaced by itself — the name is not an
+    HTML5 entity and does not begin with one (`&foo;`, `&é;`) -/
+def ampFree (rest : Str) : Bool :=
+  match Unescape.charrefAt true rest with
+  | none => true
+  | some (_, rep) => rest.head? != some '#' && rep == '&' :: (span Unescape.nameChar rest).1 ++ [';']
+
+def ampOk2 : Str → Bool
+  | [] => true
+  | c :: rest => (c != '&' || ampFree rest) && ampOk2 rest
+
+theorem ampOk_ampOk2 : ∀ (s : Str), ampOk s = true → ampOk2 s = true
+  | [], _ => rfl
+  | c :: rest, h => by
+    simp only [ampOk, Bool.and_eq_true, Bool.or_eq_true] at h
+    simp only [ampOk2, Bool.and_eq_true, Bool.or_eq_true]
+    refine ⟨?_, ampOk_ampOk2 rest h.2⟩
+    rcases h.1 with h1 | h1
+    · exact Or.inl h1
+    · right; simp [ampFree, charrefAt_none rest h1]
+
+theorem ampOk2_drop : ∀ (n : Nat) (s : Str), ampOk2 s = true → ampOk2 (s.drop n) = true
+  | 0, _, h => h
+  | _ + 1, [], _ => rfl
+  | n + 1, c :: rest, h => by
+    simp only [ampOk2, Bool.and_eq_true] at h
+    exact ampOk2_drop n rest h.2
+
+theorem charrefAt_named (rest : Str) (len : Nat) (rep : Str) (hh : rest.head? ≠ some '#')
+    (h : Unescape.charrefAt true rest = some (len, rep)) :
+    ∃ tail, rest = (span Unescape.nameChar rest).1 ++ ';' :: tail ∧ len = (span Unescape.nameChar rest).1.length + 1 := by
+  unfold Unescape.charrefAt at h
+  split at h
+  · simp at hh
+  · simp only [if_true] at h
+    obtain ⟨e, _⟩ := span_eq Unescape.nameChar rest _ _ rfl
+    split at h
+    · cases h
+    · split at h
+      · rename_i hc
+        simp only [Bool.and_eq_true, decide_eq_true_eq, beq_iff_eq] at hc
+        cases hb : (span Unescape.nameChar rest).2 with
+        | nil => rw [hb] at hc; simp at hc
+        | cons d b =>
+          rw [hb] at hc e
+          simp only [List.head?_cons, Option.some.injEq] at hc
+          obtain ⟨_, rfl⟩ := hc
+          simp only [Option.some.injEq, Prod.mk.injEq] at h
+          exact ⟨b, e, h.1.symm⟩
+      · cases h
+
+theorem unescapeAux_inert2 : ∀ (fuel : Nat) (s : Str), ampOk2 s = true → Unescape.unescapeAux true fuel s = s
+  | 0, _, _ => rfl
+  | _ + 1, [], _ => rfl
+  | fuel + 1, c :: rest, h => by
+    simp only [ampOk2, Bool.and_eq_true, Bool.or_eq_true] at h
+    have ih := unescapeAux_inert2 fuel rest h.2
+    simp only [Unescape.unescapeAux]
+    split
+    · rename_i hc
+      simp only [beq_iff_eq] at hc
+      subst hc
+      have hf : ampFree rest = true := by simpa using h.1
+      unfold ampFree at hf
+      cases hcr : Unescape.charrefAt true rest with
+      | none => simp only [ih]
+      | some r =>
+        obtain ⟨len, rep⟩ := r
+        rw [hcr] at hf
+        simp only [Bool.and_eq_true, bne_iff_ne, ne_eq, beq_iff_eq] at hf
+        obtain ⟨tail, e1, e2⟩ := charrefAt_named rest len rep hf.1 hcr
+        simp only
+        rw [unescapeAux_inert2 fuel (rest.drop len) (ampOk2_drop len rest h.2), hf.2]
+        subst e2
+        generalize (span Unescape.nameChar rest).1 = run at e1 ⊢
+        subst e1
+        simp
+    · rw [ih]
+
+theorem unescape_inert2 (s : Str) (h : ampOk2 s = true) : Unescape.unescape true s = s := unescapeAux_inert2 _ s h
+
+
+theorem span_nl_gen (p : Char → Bool) (hp : p '\n' = false) (more : Str) : ∀ (t : Str),
+    span p (t ++ '\n' :: more) = ((span p t).1, (span p t).2 ++ '\n' :: more)
+  | [] => by simp [span, hp]
+  | c :: t => by
+    simp only [List.cons_append, span]
+    split
+    · rw [span_nl_gen p hp more t]
+    · rfl
+
+theorem head_semi (x more : Str) : ((x ++ '\n' :: more).head? == some ';') = (x.head? == some ';') := by
+  cases x <;> simp
+
+theorem charrefAt_not_hash (r : Str) (h : r.head? ≠ some '#') :
+    Unescape.charrefAt true r =
+      if (span Unescape.nameChar r).1.isEmpty then none
+      else if (span Unescape.nameChar r).1.length ≤ 32 && (span Unescape.nameChar r).2.head? == some ';' then
+        some ((span Unescape.nameChar r).1.length + 1, Unescape.namedRef ((span Unescape.nameChar r).1 ++ [';']))
+      else none := by
+  unfold Unescape.charrefAt
+  split
+  · simp at h
+  · simp
+
+theorem charrefAt_nl (t more : Str) : Unescape.charrefAt true (t ++ '\n' :: more) = Unescape.charrefAt true t := by
+  have h1 : Unescape.hexDigitC '\n' = false := by decide
+  have h2 : Unescape.asciiDigit '\n' = false := by decide
+  have h3 : Unescape.nameChar '\n' = false := by decide
+  cases t with
+  | nil => simp [Unescape.charrefAt, span, h3]
+  | cons c t1 =>
+    by_cases hc : c = '#'
+    · subst hc
+      cases t1 with
+      | nil => simp [Unescape.charrefAt, span, h2]
+      | cons x t2 =>
+        simp only [List.cons_append, Unescape.charrefAt]
+        split
+        · rw [span_nl_gen _ h1]
+          simp only [head_semi]
+        · have := span_nl_gen _ h2 more (x :: t2)
+          simp only [List.cons_append] at this
+          rw [this]
+          simp only [head_semi]
+    · rw [charrefAt_not_hash (c :: t1) (by simpa using hc),
+        charrefAt_not_hash (c :: t1 ++ '\n' :: more) (by simpa using hc), span_nl_gen _ h3]
+      simp only [head_semi]
+
+theorem ampFree_nl (t more : Str) (h : ampFree (t ++ '\n' :: more) = true) : ampFree t = true := by
+  unfold ampFree at h ⊢
+  rw [charrefAt_nl] at h
+  have h3 : Unescape.nameChar '\n' = false := by decide
+  rw [span_nl_gen _ h3] at h
+  cases hcr : Unescape.charrefAt true t with
+  | none => rfl
+  | some r =>
+    rw [hcr] at h
+    simp only [Bool.and_eq_true, bne_iff_ne, ne_eq, beq_iff_eq] at h ⊢
+    refine ⟨?_, h.2⟩
+    intro e
+    apply h.1
+    cases t with
+    | nil => simp at e
+    | cons c t1 => simpa using e
+
+theorem ampOk2_append_right : ∀ (a b : Str), ampOk2 (a ++ b) = true → ampOk2 b = true
+  | [], _, h => h
+  | c :: a, b, h => by
+    simp only [List.cons_append, ampOk2, Bool.and_eq_true] at h
+    exact ampOk2_append_right a b h.2
+
+theorem ampOk2_prefix_nl (more : Str) : ∀ (t : Str), ampOk2 (t ++ '\n' :: more) = true → ampOk2 t = true
+  | [], _ => rfl
+  | c :: t, h => by
+    simp only [List.cons_append, ampOk2, Bool.and_eq_true, Bool.or_eq_true] at h ⊢
+    refine ⟨?_, ampOk2_prefix_nl more t h.2⟩
+    rcases h.1 with h1 | h1
+    · exact Or.inl h1
+    · exact Or.inr (ampFree_nl t more h1)
+
+open Mistletoe.Document in
+theorem ampOk2_lines : ∀ (ts : List Str), ampOk2 (joinNl ts) = true → ∀ t ∈ ts, ampOk2 t = true
+  | [], _, _, h => by simp at h
+  | [t], h, x, hx => by
+    simp only [List.mem_singleton] at hx
+    subst hx
+    simpa [joinNl] using h
+  | t :: t' :: rest, h, x, hx => by
+    rw [joinNl_cons2] at h
+    rcases List.mem_cons.mp hx with rfl | hx
+    · exact ampOk2_prefix_nl _ _ h
+    · have h2 : ampOk2 (joinNl (t' :: rest)) = true := by
+        have := ampOk2_append_right (t ++ ['\n']) (joinNl (t' :: rest)) (by simpa using h)
+        exact this
+      exact ampOk2_lines (t' :: rest) h2 x hx
+
+/-! ### the predicates -/
+
 /-- inert text, widened (`strict = true`: any table of link definitions; `false`: the empty table) -/
 def inertBodyG (strict : Bool) (s : Str) : Bool :=
-  s.all okChar && ltOk s && ampOk s && tildeOk s && brOkG strict false s && emphOk2 false false ' ' s
+  s.all okChar && ltOk s && ampOk2 s && tildeOk s && brOkG strict false s && emphOk2 false false ' ' s
 
 /-- **the widened inline condition**: as `inertBody`, but runs of `*` / `_` may open or close emphasis
     as long as no run that can open is followed later by a run of the same character that can close -/
 def inertBody2 (s : Str) : Bool :=
-  s.all okChar && ltOk s && ampOk s && tildeOk s && bracketsOk s && emphOk2 false false ' ' s
+  s.all okChar && ltOk s && ampOk2 s && tildeOk s && bracketsOk s && emphOk2 false false ' ' s
 
 /-- widened further, for an empty table of link definitions: `]` after `[` is allowed when it is
     followed directly by neither `(` nor `[` -/
@@ -195,7 +377,7 @@ theorem inertBody2_inertBodyG (strict : Bool) (s : Str) (h : inertBody2 s = true
 theorem inertBody_inertBody2 (s : Str) (h : inertBody s = true) : inertBody2 s = true := by
   simp only [inertBody, Bool.and_eq_true] at h
   simp only [inertBody2, Bool.and_eq_true]
-  exact ⟨h.1, emphOk_emphOk2 s _ _ _ h.2⟩
+  exact ⟨⟨⟨⟨h.1.1.1.1, ampOk_ampOk2 s h.1.1.1.2⟩, h.1.1.2⟩, h.1.2⟩, emphOk_emphOk2 s _ _ _ h.2⟩
 
 theorem inertBody2_inertBody3 (s : Str) (h : inertBody2 s = true) : inertBody3 s = true :=
   inertBody2_inertBodyG false s h
@@ -764,4 +946,274 @@ theorem tokenizeInner_lines_gen (types : List STok) (fn : Footnotes.Table) (ts :
   simp only [List.length_nil, Nat.zero_add] at this
   rw [this]
 
+
+/-! ## the widened predicates: no candidate, one RawText per line -/
+
+theorem inertBodyG_parts (strict : Bool) (s : Str) (h : inertBodyG strict s = true) :
+    ScanOk s ∧ ampOk2 s = true ∧ brOkG strict false s = true ∧ emphOk2 false false ' ' s = true := by
+  simp only [inertBodyG, Bool.and_eq_true, List.all_eq_true] at h
+  obtain ⟨⟨⟨⟨⟨h1, h2⟩, h3⟩, h4⟩, h5⟩, h6⟩ := h
+  refine ⟨⟨?_, h2, h4⟩, h3, h5, h6⟩
+  intro c hc
+  have := h1 c hc
+  simpa [okChar] using this
+
+theorem findCoreTokens_inertG (strict : Bool) (s : Str) (fn : Footnotes.Table) (hfn : strict = false → fn = [])
+    (h : inertBodyG strict s = true) : findCoreTokens s fn = .ok ([], []) := by
+  obtain ⟨hs, _, hb, he⟩ := inertBodyG_parts strict s h
+  exact findCoreTokens_inert2 strict s fn hs.ok hfn hb he
+
+/-- one line: no class finds anything, `html.unescape` is the identity, one `RawText` -/
+theorem inline_inertG (strict : Bool) (types : List STok) (fn : Footnotes.Table) (s : Str)
+    (ht : ∀ t ∈ types, inertClass t = true) (hfn : strict = false → fn = [])
+    (h : inertBodyG strict s = true) (hnl : '\n' ∉ s) :
+    findAll s types fn = .ok [] ∧ Unescape.unescape true s = s ∧
+      (s ≠ [] → tokenizeInner types fn s = .ok [.rawText s]) := by
+  have hp := inertBodyG_parts strict s h
+  have h1 := findAll_gen s types fn ht hp.1 (findCoreTokens_inertG strict s fn hfn h) hnl
+  have h2 := unescape_inert2 s hp.2.1
+  refine ⟨h1, h2, fun hne => ?_⟩
+  rw [tokenizeInner_no_candidates types fn s h1 hne, h2]
+
+open Mistletoe.Document in
+/-- several lines -/
+theorem tokenizeInner_linesG (strict : Bool) (types : List STok) (fn : Footnotes.Table) (ts : List Str)
+    (ht : ∀ t ∈ types, inertClass t = true) (hc : types.count .lineBreak = 1) (hne : ts ≠ [])
+    (hl : ∀ t ∈ ts, LineOk t) (hfn : strict = false → fn = []) (hb : inertBodyG strict (joinNl ts) = true) :
+    tokenizeInner types fn (joinNl ts) = .ok (proseInlines ts) := by
+  have hp := inertBodyG_parts strict _ hb
+  exact tokenizeInner_lines_gen types fn ts ht hc hne hl hp.1 (findCoreTokens_inertG strict _ fn hfn hb)
+    (fun t htm => unescape_inert2 t (ampOk2_lines ts hp.2.1 t htm))
+
+open Mistletoe.Document in
+theorem lineOk_of_proseG (strict : Bool) (ls : List Str) (h : ∀ l ∈ ls, proseLine l = true)
+    (hb : inertBodyG strict (joinNl (ls.map strip)) = true) : ∀ t ∈ ls.map strip, LineOk t := by
+  intro t ht
+  obtain ⟨l, hl, rfl⟩ := List.mem_map.mp ht
+  have f := proseLine_facts l (h l hl)
+  refine ⟨f.ne, f.nl, ?_, ?_⟩
+  · intro hm
+    have := ((inertBodyG_parts strict _ hb).1.ok '\\' (mem_joinNl _ _ ht _ hm)).1
+    exact this rfl
+  · intro e
+    have := f.last ' ' e
+    revert this; decide
+
+open Mistletoe.Document in
+/-- the `Paragraph` constructor on lines whose joined text satisfies the widened predicate -/
+theorem mkBlocks_proseG (strict : Bool) (cfg : Document.Cfg) (fn : Footnotes.Table) (ls : List Str) (ln o : Nat)
+    (ht : ∀ t ∈ cfg.span, inertClass t = true) (hc : cfg.span.count .lineBreak = 1) (hne : ls ≠ [])
+    (h : ∀ l ∈ ls, proseLine l = true) (hfn : strict = false → fn = [])
+    (hb : inertBodyG strict (joinNl (ls.map strip)) = true) :
+    mkBlocks cfg fn [.paragraph ls ln o] = .ok [.paragraph (proseInlines (ls.map strip)) ln] := by
+  have hin : inl cfg fn (strip (ls.map lstrip).flatten) = .ok (proseInlines (ls.map strip)) := by
+    unfold inl
+    rw [paragraph_content ls hne h]
+    exact tokenizeInner_linesG strict cfg.span fn _ ht hc (by simpa using hne) (lineOk_of_proseG strict ls h hb) hfn hb
+  simp only [mkBlocks, mkBlock, hin]
+
 end Mistletoe.InertInline2
+
+/-! ## C14 with the widened inline condition -/
+
+namespace Mistletoe.Props.C14
+open Mistletoe Mistletoe.Py Mistletoe.Scan Mistletoe.Block Mistletoe.Inline Mistletoe.InertInline Mistletoe.InertInline2
+open Mistletoe.Html Mistletoe.Escape
+
+/-- inert text on one line, widened -/
+def inertText2 (s : Str) : Bool := inertBody2 s && !s.contains '\n'
+/-- … and for an empty table of link definitions -/
+def inertText3 (s : Str) : Bool := inertBody3 s && !s.contains '\n'
+
+/-- **`inertBody2` is weaker than `inertBody`**, and `inertBody3` weaker still -/
+theorem C14_inertBody2_weaker (s : Str) :
+    (inertBody s = true → inertBody2 s = true) ∧ (inertBody2 s = true → inertBody3 s = true) :=
+  ⟨inertBody_inertBody2 s, inertBody2_inertBody3 s⟩
+
+/-- **No emphasis without an opener/closer pair.**  `process_emphasis` on a delimiter list in which
+    no delimiter that can open is followed by one of the same character that can close records no
+    match (whatever the runs' lengths and the `bottoms` bookkeeping do). -/
+theorem C14_no_pair_no_emphasis (s : Str) (ds : List Core.Delim) (ms : List Core.CoreM)
+    (hh : ∀ d ∈ ds, d.type ≠ []) (hp : ds.Pairwise NoMatch) : Core.processEmphasis s none ds ms = .ok ([], ms) :=
+  processEmphasis_nopair s ds ms hh hp
+
+/-- **`find_core_tokens` finds nothing under the widened condition**, for every table of definitions -/
+theorem C14_core_inert2 (s : Str) (fn : Footnotes.Table) (h : inertBody2 s = true) :
+    Core.findCoreTokens s fn = .ok ([], []) :=
+  findCoreTokens_inertG true s fn (by simp) (inertBody2_inertBodyG true s h)
+
+/-- … and under `inertBody3` for the empty table -/
+theorem C14_core_inert3 (s : Str) (h : inertBody3 s = true) : Core.findCoreTokens s [] = .ok ([], []) :=
+  findCoreTokens_inertG false s [] (fun _ => rfl) h
+
+/-- **The analogue of `C14_inline_inert` for `inertBody2`**: for every list of covered classes and
+    every definitions table, no class finds a match, `html.unescape` is the identity on the text, and
+    `tokenize_inner` returns `[RawText(text)]`. -/
+theorem C14_inline_inert2 (types : List STok) (fn : Footnotes.Table) (s : Str)
+    (ht : ∀ t ∈ types, inertClass t = true) (h : inertText2 s = true) :
+    findAll s types fn = .ok [] ∧ Unescape.unescape true s = s ∧
+      (s ≠ [] → tokenizeInner types fn s = .ok [.rawText s]) := by
+  simp only [inertText2, Bool.and_eq_true, Bool.not_eq_eq_eq_not, Bool.not_true, List.contains_eq_mem,
+    decide_eq_false_iff_not] at h
+  exact inline_inertG true types fn s ht (by simp) (inertBody2_inertBodyG true s h.1) h.2
+
+/-- the same for `inertBody3` and the empty definitions table -/
+theorem C14_inline_inert3 (types : List STok) (s : Str)
+    (ht : ∀ t ∈ types, inertClass t = true) (h : inertText3 s = true) :
+    findAll s types [] = .ok [] ∧ Unescape.unescape true s = s ∧
+      (s ≠ [] → tokenizeInner types [] s = .ok [.rawText s]) := by
+  simp only [inertText3, Bool.and_eq_true, Bool.not_eq_eq_eq_not, Bool.not_true, List.contains_eq_mem,
+    decide_eq_false_iff_not] at h
+  exact inline_inertG false types [] s ht (fun _ => rfl) h.1 h.2
+
+/-- **Several lines** (the analogue of `C14_inline_lines`): only raw text and soft line breaks -/
+theorem C14_inline_lines2 (types : List STok) (fn : Footnotes.Table) (ts : List Str)
+    (ht : ∀ t ∈ types, inertClass t = true) (hc : types.count .lineBreak = 1) (hne : ts ≠ [])
+    (hl : ∀ t ∈ ts, t ≠ [] ∧ '\n' ∉ t ∧ t.getLast? ≠ some ' ')
+    (hb : inertBody2 (Document.joinNl ts) = true) :
+    tokenizeInner types fn (Document.joinNl ts) = .ok (proseInlines ts) := by
+  have hb' := inertBody2_inertBodyG true _ hb
+  refine tokenizeInner_linesG true types fn ts ht hc hne ?_ (by simp) hb'
+  intro t htm
+  obtain ⟨h1, h2, h3⟩ := hl t htm
+  refine ⟨h1, h2, ?_, h3⟩
+  intro hm
+  exact ((inertBodyG_parts true _ hb').1.ok '\\' (mem_joinNl ts t htm _ hm)).1 rfl
+
+theorem C14_inline_lines3 (types : List STok) (ts : List Str)
+    (ht : ∀ t ∈ types, inertClass t = true) (hc : types.count .lineBreak = 1) (hne : ts ≠ [])
+    (hl : ∀ t ∈ ts, t ≠ [] ∧ '\n' ∉ t ∧ t.getLast? ≠ some ' ')
+    (hb : inertBody3 (Document.joinNl ts) = true) :
+    tokenizeInner types [] (Document.joinNl ts) = .ok (proseInlines ts) := by
+  refine tokenizeInner_linesG false types [] ts ht hc hne ?_ (fun _ => rfl) hb
+  intro t htm
+  obtain ⟨h1, h2, h3⟩ := hl t htm
+  refine ⟨h1, h2, ?_, h3⟩
+  intro hm
+  exact ((inertBodyG_parts false _ hb).1.ok '\\' (mem_joinNl ts t htm _ hm)).1 rfl
+
+theorem C14_proseG (strict : Bool) (cfg : Document.Cfg) (hpar : .paragraph ∈ cfg.block.types)
+    (ht : ∀ t ∈ cfg.span, inertClass t = true) (hc : cfg.span.count .lineBreak = 1)
+    (ls : List Str) (hne : ls ≠ []) (hl : ∀ l ∈ ls, inertLine l = true ∧ proseLine l = true)
+    (hi : inertBodyG strict (Document.joinNl (ls.map strip)) = true) (gas : Nat) :
+    Document.parseLines cfg (gas + (cfg.block.types.length + 4)) ls =
+        .ok { kids := [.paragraph (proseInlines (ls.map strip)) 1], footnotes := [] } ∧
+    ∀ o : Opts, render o { kids := [.paragraph (proseInlines (ls.map strip)) 1], footnotes := [] } =
+        "<p>".toList ++ escapeHtmlText o.dq o.sq (Document.joinNl (ls.map strip)) ++ "</p>\n".toList := by
+  constructor
+  · unfold Document.parseLines
+    rw [C14_block_phase cfg.block hpar ls hne (fun s hs => (hl s hs).1) gas]
+    simp only
+    rw [mkBlocks_proseG strict cfg (Document.footnotesOf []) ls 1 1 ht hc hne (fun s hs => (hl s hs).2) (fun _ => rfl) hi]
+    rfl
+  · intro o
+    exact render_prose o (ls.map strip) 1 []
+
+/-- `C14_prose` with the widened inline condition -/
+theorem C14_prose2 (cfg : Document.Cfg) (hpar : .paragraph ∈ cfg.block.types)
+    (ht : ∀ t ∈ cfg.span, inertClass t = true) (hc : cfg.span.count .lineBreak = 1)
+    (ls : List Str) (hne : ls ≠ []) (hl : ∀ l ∈ ls, inertLine l = true ∧ proseLine l = true)
+    (hi : inertBody2 (Document.joinNl (ls.map strip)) = true) (gas : Nat) :
+    Document.parseLines cfg (gas + (cfg.block.types.length + 4)) ls =
+        .ok { kids := [.paragraph (proseInlines (ls.map strip)) 1], footnotes := [] } ∧
+    ∀ o : Opts, render o { kids := [.paragraph (proseInlines (ls.map strip)) 1], footnotes := [] } =
+        "<p>".toList ++ escapeHtmlText o.dq o.sq (Document.joinNl (ls.map strip)) ++ "</p>\n".toList :=
+  C14_proseG true cfg hpar ht hc ls hne hl (inertBody2_inertBodyG true _ hi) gas
+
+/-- **`C14_prose_text` with the widened inline condition `inertBody2`**: `Document(text)` for the text
+    `l₁ ++ … ++ lₙ` of "\n"-terminated, block-inert prose lines whose stripped lines joined by "\n"
+    satisfy `inertBody2` is one `Paragraph` holding the lines as `RawText`s separated by soft
+    `LineBreak`s, and the HTML renderer gives `<p>`, the HTML-escaped text, `</p>` and a newline. -/
+theorem C14_prose_text2 (cfg : Document.Cfg) (hpar : .paragraph ∈ cfg.block.types)
+    (ht : ∀ t ∈ cfg.span, inertClass t = true) (hc : cfg.span.count .lineBreak = 1)
+    (ls : List Str) (hne : ls ≠ []) (h1 : ∀ l ∈ ls, oneLine l = true)
+    (hl : ∀ l ∈ ls, inertLine l = true ∧ proseLine l = true)
+    (hi : inertBody2 (Document.joinNl (ls.map strip)) = true) (gas : Nat) :
+    Document.parse cfg (gas + (cfg.block.types.length + 4)) ls.flatten =
+        .ok { kids := [.paragraph (proseInlines (ls.map strip)) 1], footnotes := [] } ∧
+    ∀ o : Opts, render o { kids := [.paragraph (proseInlines (ls.map strip)) 1], footnotes := [] } =
+        "<p>".toList ++ escapeHtmlText o.dq o.sq (Document.joinNl (ls.map strip)) ++ "</p>\n".toList := by
+  rw [parse_lines cfg _ ls h1]
+  exact C14_prose2 cfg hpar ht hc ls hne hl hi gas
+
+/-- **… and with `inertBody3`** (`]` after `[` allowed when neither `(` nor `[` follows directly): a
+    document of such lines has no link definitions, so no bracket pair becomes a link -/
+theorem C14_prose_text3 (cfg : Document.Cfg) (hpar : .paragraph ∈ cfg.block.types)
+    (ht : ∀ t ∈ cfg.span, inertClass t = true) (hc : cfg.span.count .lineBreak = 1)
+    (ls : List Str) (hne : ls ≠ []) (h1 : ∀ l ∈ ls, oneLine l = true)
+    (hl : ∀ l ∈ ls, inertLine l = true ∧ proseLine l = true)
+    (hi : inertBody3 (Document.joinNl (ls.map strip)) = true) (gas : Nat) :
+    Document.parse cfg (gas + (cfg.block.types.length + 4)) ls.flatten =
+        .ok { kids := [.paragraph (proseInlines (ls.map strip)) 1], footnotes := [] } ∧
+    ∀ o : Opts, render o { kids := [.paragraph (proseInlines (ls.map strip)) 1], footnotes := [] } =
+        "<p>".toList ++ escapeHtmlText o.dq o.sq (Document.joinNl (ls.map strip)) ++ "</p>\n".toList := by
+  rw [parse_lines cfg _ ls h1]
+  exact C14_proseG false cfg hpar ht hc ls hne hl hi gas
+
+
+/-! ### Non-vacuity -/
+
+/-- accepted by `inertBody2`, rejected by `inertBody`: runs that can close but have no opener before
+    them (`a*`, `b_`, `foo_`, `2*`, `3*`), a closer followed by an opener (`a* *b`), `&` sequences that
+    `html.unescape` leaves alone -/
+example : [L "a* b_ c", L "foo_ bar", L "2* 3* x", L "a* *b and x_ _y", L "&foo; &; &#; &#x; &#12345678; &é;"].map
+    (fun s => (inertBody2 s, inertBody s)) = List.replicate 5 (true, false) := by decide +kernel
+
+/-- accepted by `inertBody3` only: bracket pairs that are not links -/
+example : [L "[a] b", L "[x] [y]", L "a [b] c] d ![i] e"].map (fun s => (inertBody3 s, inertBody2 s)) =
+    List.replicate 3 (true, false) := by decide +kernel
+
+/-- the predicates are not trivially true.  `2*3* x` is rejected: the first `*` (between `2` and `3`)
+    can open, the second can close — and it does become emphasis, in the model and in mistletoe -/
+example : [L "2*3* x", L "*a*", L "_a b_", L "a *b c* d", L "[a](b)", L "[a][b]", L "&amp;", L "&#35;", L "&notit;", L "a ~~b~~"].map
+    inertBody3 = List.replicate 10 false := by decide +kernel
+
+/-- parse + HTML render of a `str`, by kernel evaluation of the model -/
+def htmlOf (s : Str) : Res Str := (Document.parse cfgHtml 14 s).bind (fun d => .ok (render {} d))
+
+example : htmlOf (L "a* b_ c\n") = .ok (L "<p>a* b_ c</p>\n") := by decide +kernel
+example : htmlOf (L "foo_ bar\n") = .ok (L "<p>foo_ bar</p>\n") := by decide +kernel
+example : htmlOf (L "2* 3* x\n") = .ok (L "<p>2* 3* x</p>\n") := by decide +kernel
+example : htmlOf (L "see [a] b, [x] [y]\n") = .ok (L "<p>see [a] b, [x] [y]</p>\n") := by decide +kernel
+example : htmlOf (L "x &foo; &; &#;\n") = .ok (L "<p>x &amp;foo; &amp;; &amp;#;</p>\n") := by decide +kernel
+/-- … whereas this one is markup -/
+example : htmlOf (L "2*3* x\n") = .ok (L "<p>2<em>3</em> x</p>\n") := by decide +kernel
+
+/-- the same three texts through the theorem: one `RawText` holding exactly the text -/
+example : tokenizeInner htmlSpanTypes [] (L "a* b_ c") = .ok [.rawText (L "a* b_ c")] :=
+  (C14_inline_inert2 htmlSpanTypes [] _ htmlSpanTypes_inert (by decide +kernel)).2.2 (by decide)
+example : tokenizeInner htmlSpanTypes [] (L "2* 3* x") = .ok [.rawText (L "2* 3* x")] :=
+  (C14_inline_inert2 htmlSpanTypes [] _ htmlSpanTypes_inert (by decide +kernel)).2.2 (by decide)
+example : tokenizeInner htmlSpanTypes [] (L "foo_ bar") = .ok [.rawText (L "foo_ bar")] :=
+  (C14_inline_inert2 htmlSpanTypes [] _ htmlSpanTypes_inert (by decide +kernel)).2.2 (by decide)
+
+def prose2 : List Str := [L "  a* b_ c and foo_ bar\n", L "2* 3* x &foo; &; ] then [\n", L "a* *b &#; x_ _y\n"]
+
+theorem prose2_lines_ok : ∀ l ∈ prose2, inertLine l = true ∧ proseLine l = true := by decide +kernel
+theorem prose2_text_ok : inertBody2 (Document.joinNl (prose2.map strip)) = true := by decide +kernel
+example : inertBody (Document.joinNl (prose2.map strip)) = false := by decide +kernel
+
+/-- instance of `C14_prose_text2` (the right-hand sides are literal) -/
+example : Document.parse cfgHtml 14 (L "  a* b_ c and foo_ bar\n2* 3* x &foo; &; ] then [\na* *b &#; x_ _y\n") =
+    .ok { kids := [.paragraph [.rawText (L "a* b_ c and foo_ bar"), .lineBreak [] true,
+                               .rawText (L "2* 3* x &foo; &; ] then ["), .lineBreak [] true,
+                               .rawText (L "a* *b &#; x_ _y")] 1], footnotes := [] } :=
+  (C14_prose_text2 cfgHtml (by decide) htmlSpanTypes_inert (by decide) prose2 (by decide) (by decide +kernel)
+    prose2_lines_ok prose2_text_ok 0).1
+
+example : ∃ d, Document.parse cfgHtml 14 prose2.flatten = .ok d ∧ render {} d =
+    L "<p>a* b_ c and foo_ bar\n2* 3* x &amp;foo; &amp;; ] then [\na* *b &amp;#; x_ _y</p>\n" := by
+  obtain ⟨h1, h2⟩ := C14_prose_text2 cfgHtml (by decide) htmlSpanTypes_inert (by decide) prose2 (by decide)
+    (by decide +kernel) prose2_lines_ok prose2_text_ok 0
+  exact ⟨_, h1, by rw [h2]; decide +kernel⟩
+
+def prose3 : List Str := [L "see [a] b and [x] [y]\n", L "then a] [b] c] d ![img] e*\n"]
+
+/-- instance of `C14_prose_text3` -/
+example : ∃ d, Document.parse cfgHtml 14 prose3.flatten = .ok d ∧ render {} d =
+    L "<p>see [a] b and [x] [y]\nthen a] [b] c] d ![img] e*</p>\n" := by
+  obtain ⟨h1, h2⟩ := C14_prose_text3 cfgHtml (by decide) htmlSpanTypes_inert (by decide) prose3 (by decide)
+    (by decide +kernel) (by decide +kernel) (by decide +kernel) 0
+  exact ⟨_, h1, by rw [h2]; decide +kernel⟩
+
+end Mistletoe.Props.C14
